@@ -59,7 +59,21 @@ def gen_cases(tier: str, seed: int) -> list[dict]:
             elif pattern == "exit-delay":
                 delays[str(w)] = [0.0, 0.0]
         cases.append({"fmt": fmt, "eps": rng.choice([1, 2, 3]), "writers": writers, "pattern": pattern, "delays": delays,
-                      "trace": k % 3 == 0, "cpu_load": rng.random() < 0.25, "seed": rng.randrange(1 << 30)})
+                      "trace": k % 3 == 0, "cpu_load": rng.random() < 0.25, "seed": rng.randrange(1 << 30),
+                      "cpu_count": 2 if (n_writers >= 3 and rng.random() < 0.5) else None})
+    # more writers than (reported) CPUs, first writers slow after their first shards: later writers start while
+    # earlier ones are still running
+    for k in range(4 if tier == "quick" else 40):
+        n_writers = rng.choice([5, 6, 8])
+        writers = [[{"split": rng.choice(["train", "train", "test"])} for _ in range(rng.randint(3, 7))] for _ in range(n_writers)]
+        delays = {str(w): ([0.0, 0.0, 0.0, 0.25] if w < 2 else [0.0, 0.0]) for w in range(n_writers)}
+        cases.append({"fmt": ["fb", "npz", "tfrec"][k % 3], "eps": 1, "writers": writers, "pattern": "few-cpus",
+                      "delays": delays, "trace": False, "cpu_load": False, "seed": rng.randrange(1 << 30), "cpu_count": 2})
+    # one writer with several hundred shards: its pickled filler is far larger than a pipe buffer
+    for k in range(2 if tier == "quick" else 12):
+        writers = [[{"split": "train"}] * 5, [{"split": "train"}] * rng.choice([300, 450]), [], [{"split": "test"}] * 20]
+        cases.append({"fmt": ["fb", "npz"][k % 2], "eps": 1, "writers": writers, "pattern": "big-writer", "delays": {},
+                      "trace": False, "cpu_load": False, "seed": rng.randrange(1 << 30), "cpu_count": None})
     return cases
 
 
@@ -74,7 +88,7 @@ def run_case(case: dict) -> dict:
         hist = {"fmt": fmt, "comp": "", "eps": case["eps"], "sessions": [session]}
         root_par, root_seq = work / "par", work / "seq"
         spec = work / "spec.json"
-        spec.write_text(json.dumps({"root": str(root_par), "hist": hist,
+        spec.write_text(json.dumps({"root": str(root_par), "hist": hist, "cpu_count": case.get("cpu_count"),
                                     "start_in": 4.0 if case["pattern"] == "sync-start" else None}))
         cmd = [common.PY, "-m", "rtmon.session_runner", str(spec), str(work / "out.json")]
         log_path = work / "strace.log"
